@@ -11,6 +11,12 @@
 enum { K_NONE = 0, K_PUSH, K_POP, K_INS1, K_INSN, K_INSR, K_ERASE1, K_ERASER, K_RESIZE, K_RESIZEU, K_ASSIGN, K_ASSIGNR, K_RESERVE, K_SHRINK, K_CLEAR,
        K_SWAP, K_COPYCTOR, K_MOVE, K_COPYASG, K_MOVEASG, K_SETAT, K_CMP, K_EMPLACE };
 
+// private member access (explicit instantiation ignores access control)
+template <class PV, uint32_t PV::*M> struct RobSize { friend uint32_t& rawsize_of(PV& v) { return v.*M; } };
+template struct RobSize<prevector<4, uint32_t>, &prevector<4, uint32_t>::_size>;
+template struct RobSize<prevector<36, uint8_t>, &prevector<36, uint8_t>::_size>;
+uint32_t& rawsize_of(prevector<4, uint32_t>&); uint32_t& rawsize_of(prevector<36, uint8_t>&);
+
 template <class T> static inline T draw();
 template <> inline uint8_t draw<uint8_t>() { return nondet_u8(); }
 template <> inline uint32_t draw<uint32_t>() { return nondet_u32(); }
@@ -21,9 +27,9 @@ struct Drv {
     typedef typename PV::value_type T;
     static constexpr unsigned NS = PV::STATIC_SIZE;
     // ---- the model
-    T a[CAP]; unsigned n = 0;
+    T a[CAP]; unsigned n = 0; bool heap = false;   // heap: the contents live in allocated storage (capacity > N)
     // ---- verdict accumulators (one assertion per kind at the end keeps the number of solver goals small)
-    bool ok_size = true, ok_elem = true, ok_fb = true, ok_iter = true, ok_ret = true, ok_cap = true, ok_mem = true, ok_other = true, ok_stable = true, ok_cmp = true, ok_bound = true;
+    bool ok_size = true, ok_elem = true, ok_fb = true, ok_iter = true, ok_ret = true, ok_cap = true, ok_mem = true, ok_other = true, ok_stable = true, ok_cmp = true, ok_bound = true, ok_rep = true;
 
     void m_insert(unsigned pos, unsigned c, const T* vals)
     {
@@ -71,129 +77,119 @@ struct Drv {
     }
     void check(PV& v) { same(v, a, n); }
 
-    // capacity contracts. grow: an operation that may need room for `need` elements must not reallocate when they fit (pointer stability), and
-    // must end with capacity >= need; keep: operations that never change the capacity (erase family: documented in prevector.h)
-    void cap_grow(PV& v, size_t cap0, const T* data0, unsigned need)
-    {
-        if (need <= cap0) { if (v.capacity() != cap0) ok_cap = false; if (v.data() != data0) ok_stable = false; }
-        else if (v.capacity() < need) ok_cap = false;
-    }
-    void cap_keep(PV& v, size_t cap0, const T* data0)
-    {
-        if (v.capacity() != cap0) ok_cap = false;
-        if (v.data() != data0) ok_stable = false;
-    }
-
     void fresh(PV& w, T* arr, unsigned c) { for (unsigned i = 0; i < c; i++) arr[i] = draw<T>(); w.assign(arr, arr + c); same(w, arr, c); }
 
     // position operand: symbolic in [0,hi] when P < 0, else the concrete P (must be <= hi)
     template <int P> unsigned draw_pos(unsigned hi) { if constexpr (P < 0) return (unsigned)nondet_range(0, hi); if ((unsigned)P > hi) ok_bound = false; return (unsigned)P <= hi ? (unsigned)P : hi; }
 
+    // "assert-then-pin": a write through a symbolic position into the INLINE storage makes CBMC lose the constant value of the adjacent
+    // _size field (the whole object is updated byte-wise). After every operation the raw _size field is ASSERTED to be exactly what the
+    // representation demands for the model (size n, storage kind `heap`: n inline, n + N + 1 on the heap) and this very constant is stored
+    // back. The store is a no-op whenever the assertion holds, and it restores a concrete size for the operations that follow.
+    void pin(PV& v)
+    {
+        const unsigned want = heap ? n + NS + 1 : n;
+        if (rawsize_of(v) != want) ok_rep = false;
+        rawsize_of(v) = want;
+    }
+
+    enum Mode { M_GROW, M_KEEP, M_SHRINK, M_TAKEN };
     template <int kind, unsigned c, int P>
     void step(PV& v)
     {
         if constexpr (kind == K_NONE) return;
         const size_t cap0 = v.capacity();
         const T* data0 = v.data();
+        const bool heap0 = heap;
         T vals[CAP];
-        if constexpr (kind == K_PUSH) { vals[0] = draw<T>(); v.push_back(vals[0]); m_insert(n, 1, vals); cap_grow(v, cap0, data0, n); }
-        if constexpr (kind == K_EMPLACE) { vals[0] = draw<T>(); v.emplace_back(vals[0]); m_insert(n, 1, vals); cap_grow(v, cap0, data0, n); }
-        if constexpr (kind == K_POP) { if (n == 0) { ok_bound = false; return; } v.pop_back(); m_erase(n - 1, 1); cap_keep(v, cap0, data0); }
+        Mode mode = M_KEEP; unsigned need = 0; size_t taken_cap = 0; bool taken_heap = false;
+        if constexpr (kind == K_PUSH) { vals[0] = draw<T>(); v.push_back(vals[0]); m_insert(n, 1, vals); mode = M_GROW; need = n; }
+        if constexpr (kind == K_EMPLACE) { vals[0] = draw<T>(); v.emplace_back(vals[0]); m_insert(n, 1, vals); mode = M_GROW; need = n; }
+        if constexpr (kind == K_POP) { if (n == 0) { ok_bound = false; return; } v.pop_back(); m_erase(n - 1, 1); }
         if constexpr (kind == K_INS1) {
             const unsigned pos = draw_pos<P>(n); vals[0] = draw<T>();
             typename PV::iterator it = v.insert(v.begin() + pos, vals[0]);
-            m_insert(pos, 1, vals);
+            m_insert(pos, 1, vals); mode = M_GROW; need = n;
+            heap = heap0 || need > cap0; pin(v);
             if ((unsigned)(it - v.begin()) != pos || *it != vals[0]) ok_ret = false;
-            cap_grow(v, cap0, data0, n);
             if constexpr (P < 0) { VWITNESS(pos == 0, "insert at the front"); VWITNESS(pos == n - 1, "insert at the back (n is the new size)"); }
-            }
+        }
         if constexpr (kind == K_INSN) {
             const unsigned pos = draw_pos<P>(n); const T x = draw<T>();
             for (unsigned i = 0; i < c; i++) vals[i] = x;
             v.insert(v.begin() + pos, c, x);
-            m_insert(pos, c, vals); cap_grow(v, cap0, data0, n);
-            }
+            m_insert(pos, c, vals); mode = M_GROW; need = n;
+        }
         if constexpr (kind == K_INSR) {
             const unsigned pos = draw_pos<P>(n);
             for (unsigned i = 0; i < c; i++) vals[i] = draw<T>();
             v.insert(v.begin() + pos, (const T*)vals, (const T*)vals + c);
-            m_insert(pos, c, vals); cap_grow(v, cap0, data0, n);
+            m_insert(pos, c, vals); mode = M_GROW; need = n;
             if constexpr (P < 0) VWITNESS(pos == n - c, "range appended");
-            }
+        }
         if constexpr (kind == K_ERASE1) {
             if (n == 0) { ok_bound = false; return; }
             const unsigned pos = draw_pos<P>(n - 1);
             typename PV::iterator it = v.erase(v.begin() + pos);
-            m_erase(pos, 1);
+            m_erase(pos, 1); pin(v);
             if ((unsigned)(it - v.begin()) != pos) ok_ret = false;
-            cap_keep(v, cap0, data0);
-            }
+        }
         if constexpr (kind == K_ERASER) {
             if (n < c) { ok_bound = false; return; }
             const unsigned pos = draw_pos<P>(n - c);
             typename PV::iterator it = v.erase(v.begin() + pos, v.begin() + pos + c);
-            m_erase(pos, c);
+            m_erase(pos, c); pin(v);
             if ((unsigned)(it - v.begin()) != pos) ok_ret = false;
-            cap_keep(v, cap0, data0);
             if constexpr (P < 0) VWITNESS(pos == n, "tail range erased");
-            }
+        }
         if constexpr (kind == K_RESIZE) {
             v.resize(c);
-            if (c <= n) { m_erase(c, n - c); cap_keep(v, cap0, data0); }
-            else { const unsigned add = c - n; for (unsigned i = 0; i < add; i++) vals[i] = T{}; m_insert(n, add, vals); cap_grow(v, cap0, data0, n); }
-            }
+            if (c <= n) m_erase(c, n - c);
+            else { const unsigned add = c - n; for (unsigned i = 0; i < add; i++) vals[i] = T{}; m_insert(n, add, vals); mode = M_GROW; need = n; }
+        }
         if constexpr (kind == K_RESIZEU) {
             const unsigned old = n;
             v.resize_uninitialized(c);
-            if (c <= n) { m_erase(c, n - c); cap_keep(v, cap0, data0); }
+            if (c <= n) m_erase(c, n - c);
             else {   // contract: the caller initialises the new tail
                 const unsigned add = c - n; for (unsigned i = 0; i < add; i++) vals[i] = draw<T>();
-                m_insert(n, add, vals); cap_grow(v, cap0, data0, n);
+                m_insert(n, add, vals); mode = M_GROW; need = n;
                 if (v.size() == c) for (unsigned i = 0; i < add; i++) v[old + i] = vals[i];
             }
-            }
+        }
         if constexpr (kind == K_ASSIGN) {
             const T x = draw<T>(); for (unsigned i = 0; i < c; i++) vals[i] = x;
             v.assign(c, x);
-            m_erase(0, n); m_insert(0, c, vals); cap_grow(v, cap0, data0, n);
-            }
+            m_erase(0, n); m_insert(0, c, vals); mode = M_GROW; need = n;
+        }
         if constexpr (kind == K_ASSIGNR) {
             for (unsigned i = 0; i < c; i++) vals[i] = draw<T>();
             v.assign((const T*)vals, (const T*)vals + c);
-            m_erase(0, n); m_insert(0, c, vals); cap_grow(v, cap0, data0, n);
-            }
-        if constexpr (kind == K_RESERVE) {
-            v.reserve(c);
-            cap_grow(v, cap0, data0, c);
-            if (v.capacity() < cap0) ok_cap = false;
-            }
-        if constexpr (kind == K_SHRINK) {
-            v.shrink_to_fit();
-            if (v.capacity() != (n > NS ? n : NS)) ok_cap = false;   // documented: switches back to inline storage when the contents fit
-            }
-        if constexpr (kind == K_CLEAR) { v.clear(); m_erase(0, n); cap_keep(v, cap0, data0); }
+            m_erase(0, n); m_insert(0, c, vals); mode = M_GROW; need = n;
+        }
+        if constexpr (kind == K_RESERVE) { v.reserve(c); mode = M_GROW; need = c; }
+        if constexpr (kind == K_SHRINK) { v.shrink_to_fit(); mode = M_SHRINK; }
+        if constexpr (kind == K_CLEAR) { v.clear(); m_erase(0, n); }
         if constexpr (kind == K_SETAT) {
             if (n == 0) { ok_bound = false; return; }
             const unsigned pos = draw_pos<P>(n - 1); const T x = draw<T>();
             v[pos] = x;
             for (int i = 0; i < CAP; i++) if ((unsigned)i == pos) a[i] = x;
-            cap_keep(v, cap0, data0);
-            }
+        }
         if constexpr (kind == K_SWAP) {
             PV w; fresh(w, vals, c);
-            const size_t wcap = w.capacity();
+            taken_cap = w.capacity(); taken_heap = c > NS; mode = M_TAKEN;
             v.swap(w);
             same(w, a, n);                       // w now holds the old contents of v ...
-            if (w.capacity() != cap0 || v.capacity() != wcap) ok_cap = false;   // ... and the capacities travel with the contents
+            if (w.capacity() != cap0) ok_cap = false;   // ... and the capacity travels with the contents
             m_erase(0, n); m_insert(0, c, vals);
-            }
+        }
         if constexpr (kind == K_COPYCTOR) {
             PV w(v);
             same(w, a, n);
-            check(v); cap_keep(v, cap0, data0);  // source untouched
             if (n > 0 && w.data() == v.data()) ok_other = false;   // deep copy
             if (n > 0) { w[0] = (T)(w[0] + 1); if (v[0] != a[0]) ok_other = false; }
-            }
+        }
         if constexpr (kind == K_MOVE) {
             PV w(std::move(v));
             same(w, a, n);
@@ -201,23 +197,21 @@ struct Drv {
             if (v.size() != 0 || !v.empty() || v.capacity() != NS) ok_other = false;   // moved-from prevector is empty and inline
             v = std::move(w);
             if (w.size() != 0 || w.capacity() != NS) ok_other = false;
-            cap_keep(v, cap0, data0);
-            }
+        }
         if constexpr (kind == K_COPYASG) {
             PV w; fresh(w, vals, c);
             v = w;
             same(w, vals, c);
-            m_erase(0, n); m_insert(0, c, vals); cap_grow(v, cap0, data0, n);
+            m_erase(0, n); m_insert(0, c, vals); mode = M_GROW; need = n;
             PV& self = v; v = self;              // self-assignment is a no-op
-            }
+        }
         if constexpr (kind == K_MOVEASG) {
             PV w; fresh(w, vals, c);
-            const size_t wcap = w.capacity();
+            taken_cap = w.capacity(); taken_heap = c > NS; mode = M_TAKEN;
             v = std::move(w);
             if (w.size() != 0 || w.capacity() != NS) ok_other = false;
-            if (v.capacity() != wcap) ok_cap = false;
             m_erase(0, n); m_insert(0, c, vals);
-            }
+        }
         if constexpr (kind == K_CMP) {
             // shortlex order of prevector (size first, then element-wise), == is element-wise equality
             PV w; fresh(w, vals, c);
@@ -231,7 +225,20 @@ struct Drv {
             if (r_eq != eq || r_lt != lt || r_gt != (!eq && !lt)) ok_cmp = false;
             if (!(v == v) || (v < v)) ok_cmp = false;
             VWITNESS(r_eq || r_lt != r_gt, "comparison yields a definite order");
-            }
+        }
+        // storage kind demanded by the contract: growth beyond the capacity moves to the heap, only shrink_to_fit moves back inline
+        if (mode == M_GROW) heap = heap0 || need > cap0;
+        if (mode == M_SHRINK) heap = n > NS;
+        if (mode == M_TAKEN) heap = taken_heap;
+        pin(v);
+        // capacity contract
+        if (mode == M_GROW) {   // no reallocation when the elements fit (incl. exact fits), enough room otherwise
+            if (need <= cap0) { if (v.capacity() != cap0) ok_cap = false; if (v.data() != data0) ok_stable = false; }
+            else if (v.capacity() < need) ok_cap = false;
+        }
+        if (mode == M_KEEP) { if (v.capacity() != cap0) ok_cap = false; if (v.data() != data0) ok_stable = false; }   // erase family etc.: documented not to change the capacity
+        if (mode == M_SHRINK) { if (v.capacity() != (n > NS ? n : NS)) ok_cap = false; }   // documented: back to inline storage when the contents fit
+        if (mode == M_TAKEN) { if (v.capacity() != taken_cap) ok_cap = false; }
         check(v);
     }
 };
@@ -239,7 +246,6 @@ struct Drv {
 template <int PVK> struct Sel;
 template <> struct Sel<0> { typedef prevector<4, uint32_t> PV; static constexpr int CAP = 14; };
 template <> struct Sel<1> { typedef prevector<36, uint8_t> PV; static constexpr int CAP = 64; };
-template <> struct Sel<2> { typedef prevector<8, uint16_t> PV; static constexpr int CAP = 24; };
 
 template <int PVK, int S0, int K1, int C1, int P1, int K2, int C2, int P2, int K3, int C3, int P3, int K4, int C4, int P4, int K5, int C5, int P5, int K6, int C6, int P6>
 static void run()
@@ -250,13 +256,14 @@ static void run()
     T init[Sel<PVK>::CAP];
     for (int i = 0; i < Sel<PVK>::CAP; i++) { init[i] = 0; d.a[i] = 0; }
     for (int i = 0; i < S0; i++) { init[i] = draw<T>(); d.a[i] = init[i]; }
-    d.n = S0;
+    d.n = S0; d.heap = S0 > (int)PV::STATIC_SIZE;
     PV v((const T*)init, (const T*)init + S0);
-    d.check(v);
+    d.pin(v); d.check(v);
     d.template step<K1, C1, P1>(v); d.template step<K2, C2, P2>(v); d.template step<K3, C3, P3>(v); d.template step<K4, C4, P4>(v); d.template step<K5, C5, P5>(v); d.template step<K6, C6, P6>(v);
     verif_observe(v.size()); verif_observe(v.capacity());
     for (int i = 0; i < Sel<PVK>::CAP; i++) if ((unsigned)i < v.size() && (unsigned)i < d.n) verif_observe((uint64_t)v[i]);
     VASSERT(d.ok_bound, "harness: the sequence stays inside the model capacity and only pops/erases existing elements");
+    VASSERT(d.ok_rep, "representation: the size field encodes the model size and the storage kind demanded by the contract (inline until the capacity is exceeded, back inline only by shrink_to_fit)");
     VASSERT(d.ok_size, "size()/empty() equal the model after every operation");
     VASSERT(d.ok_elem, "every element (operator[], const and non-const) equals the model after every operation");
     VASSERT(d.ok_iter, "begin()+i, data()[i] and end()-begin() agree with the model after every operation");
